@@ -85,7 +85,7 @@ def check(P, rep):
             v = key_variant(e.key)[0]
             if v in ('EpochBySignersHash', 'SignersHashByEpoch', 'Epoch', 'LastRotationTimestamp'):
                 nw += 1
-                rep.check(en in ('rotate_signers', '__constructor') and e.kind == 'sw', 'C01.R5', '%s:%s-writer' % (en, v),
+                rep.check((en in ('rotate_signers', '__constructor') or within_entry(g, e, ['rotate_signers'])) and e.kind == 'sw', 'C01.R5', '%s:%s-writer' % (en, v),
                           '%s is written only on the rotation / construction path' % v, esite(g, e), e.describe()[:160])
             if v in ('DomainSeparator', 'PreviousSignerRetention', 'MinimumRotationDelay'):
                 nw += 1
